@@ -50,6 +50,7 @@ import (
 	server_utils "github.com/siglens/siglens/pkg/server/utils"
 
 	"github.com/siglens/siglens/pkg/segment/writer/metrics"
+	metricsmeta "github.com/siglens/siglens/pkg/segment/writer/metrics/meta"
 	ingestserver "github.com/siglens/siglens/pkg/server/ingest"
 	queryserver "github.com/siglens/siglens/pkg/server/query"
 	"github.com/siglens/siglens/pkg/ssa"
@@ -370,6 +371,18 @@ func startIngestServer(serverAddr string) {
 	log.Infof(siglensStartupLog)
 	cfg := config.DefaultIngestionHttpConfig()
 	s := ingestserver.ConstructIngestServer(cfg, serverAddr)
+
+	// Replay the metrics WALs before the server takes requests: the first datapoint of a new
+	// process creates new WAL files in the directory that is replayed, and a new metrics meta
+	// WAL over the one that is still to be read.
+	err := metricsmeta.InitMetricsMeta()
+	if err != nil {
+		log.Errorf("startIngestServer: failed to initialize metrics meta: %v", err)
+	}
+	metrics.RecoverWALData()
+	metrics.RecoverMNameWALData()
+	metrics.RecoverMEntryWALData()
+
 	go func() {
 		var err error
 		if config.IsSafeMode() {
@@ -387,11 +400,6 @@ func startIngestServer(serverAddr string) {
 			}
 		}
 	}()
-
-	metrics.RecoverWALData()
-	metrics.RecoverMNameWALData()
-	metrics.RecoverMEntryWALData()
-
 }
 
 func startQueryServer(serverAddr string) {
